@@ -42,6 +42,8 @@ func c05mRun(t *testing.T, c c05mCase) (kind, what string) {
 		}
 		rdbs[a] = body
 		defer os.Remove(fmt.Sprintf("%s.%d", prefix, i))
+		// the outputs of an earlier, larger dump are still there: the run replaces them
+		ioutil.WriteFile(fmt.Sprintf("%s.%d", prefix, i), bytes.Repeat([]byte("stale dump of an earlier run\n"), (len(body)+8192)/29), 0644)
 	}
 	conf.Options.SourceAddressList = addrs
 	conf.Options.SourceRdbParallel = c.Workers
